@@ -641,6 +641,18 @@ func (m *lfsModule) streamDownloadWithVerify(r *http.Request, w http.ResponseWri
 		return
 	}
 
+	if written < expectedSize {
+		// The object is shorter than the envelope says. Its hash may still match
+		// the (then inconsistent) envelope, but the declared size is part of what
+		// the caller asked the proxy to verify.
+		m.logger.Error("LFS download size below envelope-declared size",
+			"bucket", logSafe(bucket), "key", logSafe(key), "expected_size", expectedSize, "read", written)
+		m.tracker.EmitDownloadIntegrityFailed(requestID, bucket, key, "stream", "sha256", expectedSHA, "", written, expectedSize)
+		m.lfsWriteHTTPError(w, requestID, "", http.StatusBadGateway, "integrity_failure",
+			"S3 object is shorter than the envelope-declared size; refusing to serve")
+		return
+	}
+
 	actualSHA := hex.EncodeToString(hasher.Sum(nil))
 	if actualSHA != expectedSHA {
 		m.logger.Error("LFS download integrity check FAILED — S3 bytes do not match Kafka envelope checksum",
